@@ -12,6 +12,17 @@ MUTATORS = {"append","extend","insert","pop","remove","clear","sort","add","upda
 FRESH_CALLS = {"dict","list","set","tuple","frozenset","sorted","bytes","bytearray","defaultdict","OrderedDict","chain","map","filter","zip","enumerate","range","reversed","iter"}
 IMM_CALLS = {"len","int","str","repr","float","complex","bool","isinstance","hash","min","max","sum","abs","b64encode","b64decode","literal_eval","isnan","isinf","getattr","type","id","all","any","print","dumps","field_is_default","is_dataclass","fields","hasattr"}
 
+# assumed contracts on other modules: these calls read their arguments only and touch no interpreter-wide state
+PURE_EXTERNALS = {"ast.literal_eval", "base64.b64decode", "base64.b64encode", "copy.copy", "dataclasses.fields", "dataclasses.is_dataclass", "dataclasses.replace", "math.isinf", "math.isnan",
+                  "typing.cast", "itertools.chain", "enum._decompose", "collections.OrderedDict", "collections.defaultdict", "dataclasses.field", "types.CodeType", "dis.get_instructions", "dis.findlinestarts",
+                  "ctypes.c_char", "ctypes.c_ubyte", "ctypes.c_byte", "sys.exc_info", "sys.getsizeof", "sys.intern", "math.copysign", "itertools.zip_longest", "itertools.islice",
+                  "functools.reduce", "operator.itemgetter", "operator.attrgetter", "struct.pack", "struct.unpack", "binascii.hexlify", "binascii.unhexlify", "json.dumps", "json.loads"}
+# calls that change state shared by every later call in the process
+STATE_CHANGING_EXTERNALS = {"sys.set*", "os.environ*", "os.putenv", "os.unsetenv", "os.chdir", "os.umask", "random.seed", "random.setstate", "locale.setlocale", "warnings.simplefilter",
+                            "warnings.filterwarnings", "warnings.resetwarnings", "gc.disable", "gc.enable", "gc.set*", "importlib.reload", "importlib.invalidate_caches", "decimal.setcontext",
+                            "decimal.getcontext", "threading.set*", "faulthandler.*", "signal.signal", "atexit.register", "functools.lru_cache", "functools.cache", "linecache.*", "dis.opmap*",
+                            "sys.path*", "sys.modules*", "builtins.*", "codecs.register*", "copyreg.*", "socket.setdefaulttimeout", "logging.*", "time.sleep", "resource.setrlimit"}
+
 class Prov:
     __slots__ = ("kinds", "contents", "fields")
     def __init__(self, kinds=(), contents=(), fields=None): self.kinds = frozenset(kinds); self.contents = frozenset(contents); self.fields = fields
@@ -55,9 +66,31 @@ class FrameCheck(ast.NodeVisitor):
         self.modname, self.summaries, self.classes = modname, summaries, classes
         self.globals = {n.targets[0].id for n in module_tree.body if isinstance(n, ast.Assign) and isinstance(n.targets[0], ast.Name)}
         self.globals |= {n.target.id for n in module_tree.body if isinstance(n, ast.AnnAssign) and isinstance(n.target, ast.Name)}
+        self.modules, self.imported = {}, {}       # local name -> module ; local name -> "module.attr" for from-imports of absolute modules
+        for n in ast.walk(module_tree):
+            if isinstance(n, ast.Import):
+                for a in n.names: self.modules[(a.asname or a.name).split(".")[0]] = a.name if a.asname else a.name.split(".")[0]
+            elif isinstance(n, ast.ImportFrom) and n.level == 0 and n.module:
+                for a in n.names: self.imported[a.asname or a.name] = n.module + "." + a.name
         self.obligations = []
+    def external_ob(self, qualname, node):
+        """a call into another module: listed as pure (assumed contract), listed as changing interpreter-wide state (violation), or unknown (undecided)"""
+        if qualname in PURE_EXTERNALS: ok, off = True, []
+        elif any(qualname == m or (m.endswith("*") and qualname.startswith(m[:-1])) for m in STATE_CHANGING_EXTERNALS):
+            # a function that also reads the setting back may be saving and restoring it: not decidable here
+            mod, _, attr = qualname.rpartition(".")
+            reads = {mod + "." + attr.replace("set", "get", 1), mod + ".getcwd", mod + ".getstate", mod + ".getlocale"} - {qualname}
+            ok, off = False, (["U"] if any(r in self.calls_in_function for r in reads) else ["G"])
+        else: ok, off = False, ["U"]
+        self.obligations.append(dict(fn=self.qual, line=node.lineno, what="external call %s() leaves interpreter-wide state unchanged" % qualname, target="M:" + qualname, ok=ok, offending=off))
     def check_function(self, fn, qual, modifies=()):
         self.env = {}; self.qual = qual; self.modifies = set(modifies); self.returns = Prov()
+        self.calls_in_function = set()
+        for n in ast.walk(fn):
+            if isinstance(n, ast.Call) and isinstance(n.func, ast.Attribute) and isinstance(n.func.value, ast.Name) and n.func.value.id in self.modules:
+                self.calls_in_function.add(self.modules[n.func.value.id] + "." + n.func.attr)
+            elif isinstance(n, ast.Call) and isinstance(n.func, ast.Name) and n.func.id in self.imported:
+                self.calls_in_function.add(self.imported[n.func.id])
         args = fn.args.posonlyargs + fn.args.args + fn.args.kwonlyargs
         for a in args: self.env[a.arg] = Prov({"P:" + a.arg})
         self.params = [a.arg for a in args]
@@ -131,6 +164,7 @@ class FrameCheck(ast.NodeVisitor):
         if e is None: return I
         if isinstance(e, ast.Name):
             if e.id in self.env: return self.env[e.id]
+            if e.id in self.modules: return Prov({"M:" + self.modules[e.id]})
             return Prov({"G"}) if e.id in self.globals else I
         if isinstance(e, (ast.Constant, ast.JoinedStr, ast.Compare, ast.BoolOp, ast.UnaryOp)):
             for c in ast.iter_child_nodes(e):
@@ -157,6 +191,8 @@ class FrameCheck(ast.NodeVisitor):
         if isinstance(e, ast.Subscript): self.expr(e.slice); return self.expr(e.value).elems()
         if isinstance(e, ast.Attribute):
             base = self.expr(e.value)
+            mods = [k for k in base.kinds if k.startswith("M:")]
+            if mods: return Prov({m + "." + e.attr for m in mods})
             if e.attr in IMMUTABLE_FIELDS: return I
             if base.fields is not None and e.attr in base.fields: return base.fields[e.attr]      # per-field tracking of keyword constructor calls
             return base.elems()
@@ -174,6 +210,10 @@ class FrameCheck(ast.NodeVisitor):
         f = e.func
         if isinstance(f, ast.Attribute):
             recv = self.expr(f.value)
+            mods = [k for k in recv.kinds if k.startswith("M:")]
+            if mods and f.attr not in MUTATORS:
+                for m in mods: self.external_ob(m[2:] + "." + f.attr, e)
+                return fresh(argp)
             if f.attr in MUTATORS and not (recv.kinds <= {"I"}):
                 self.store_ob(recv, e, "call .%s() on %s" % (f.attr, ast.unparse(f.value)))
                 return recv.elems()
@@ -186,6 +226,7 @@ class FrameCheck(ast.NodeVisitor):
             return fresh(argp + [recv])           # classmethod / constructor-like: CodeData.from_code etc.
         if isinstance(f, ast.Subscript) and isinstance(f.value, ast.Name) and f.value.id in self.classes: return fresh(argp)
         name = f.id if isinstance(f, ast.Name) else None
+        if name in self.imported and name not in self.env: self.external_ob(self.imported[name], e)
         if name == "copy": return Prov({"F"}, argp[0].elems().kinds - {"I", "F"} | argp[0].contents)
         if name == "cast": return argp[1]
         if name == "replace": return fresh(argp)
@@ -282,21 +323,34 @@ def run(repo):
             else:
                 RETURNS[n] = s
     out = []
-    for fname, fns in API.items():
+    files = dict(API)
+    for extra in ("__init__.py", "dataclass_hide_default.py"):
+        if os.path.exists(REPO + extra): files.setdefault(extra, {})
+    for fname, fns in files.items():
         tree = ast.parse(open(REPO + fname).read())
+        todo = []      # (node, qualified name, modifies, has_contract)
         for node in tree.body:
-            if isinstance(node, ast.FunctionDef) and node.name in fns:
-                fc = FrameCheck(tree, fname, SUMMARIES, CLASSES)
-                try:
-                    fc.check_function(node, fname + ":" + node.name, modifies=fns[node.name])
-                except NotImplementedError as e:
-                    out.append(dict(fn=fname + ":" + node.name, what="<unsupported syntax %s>" % str(e)[:60], line=node.lineno, ok=False, undecided=True, offending=["U"], target="U"))
-                    continue
-                seen = {}
-                for o in fc.obligations:
-                    k = (o["fn"], o["what"])
-                    seen[k] = seen.get(k, 0) + 1
-                    o["ordinal"] = seen[k]
-                    o["undecided"] = (not o["ok"]) and o["offending"] == ["U"]
-                    out.append(o)
+            if isinstance(node, ast.FunctionDef):
+                todo.append((node, fname + ":" + node.name, fns.get(node.name, []), node.name in fns))
+            elif isinstance(node, ast.ClassDef):
+                for m in node.body:
+                    if isinstance(m, ast.FunctionDef):
+                        mod_self = SUMMARIES.get(("method", m.name), {}).get("modifies_self") or m.name in ("__init__", "__post_init__", "__setitem__", "add")
+                        todo.append((m, "%s:%s.%s" % (fname, node.name, m.name), ["self"] if mod_self else [], ("method", m.name) in SUMMARIES or not mod_self))
+        for node, qual, modifies, has_contract in todo:
+            fc = FrameCheck(tree, fname, SUMMARIES, CLASSES)
+            try:
+                fc.check_function(node, qual, modifies=modifies)
+            except NotImplementedError as e:
+                out.append(dict(fn=qual, what="<unsupported syntax %s>" % str(e)[:60], line=node.lineno, ok=False, undecided=True, offending=["U"], target="U", ordinal=1))
+                continue
+            seen = {}
+            for o in fc.obligations:
+                k = (o["fn"], o["what"])
+                seen[k] = seen.get(k, 0) + 1
+                o["ordinal"] = seen[k]
+                o["undecided"] = (not o["ok"]) and o["offending"] == ["U"]
+                if not o["ok"] and not has_contract and all(x.startswith("P:") for x in o["offending"]):
+                    o["undecided"] = True          # a helper without a frame contract that writes to its own parameter: needs a contract, not a violation
+                out.append(o)
     return out, missing
